@@ -484,8 +484,19 @@ package opset13
 //@   modifies cont(out)
 
 //@ func calcPRelu
-//@   tags C02
+//@   tags C10,C02
 //@   modifies boxedslice(result)
+//@   ensures other_operands_refused: typeof(result) != tagof("[]T") || typeof(input) != tagof("[]T") || typeof(slope) != tagof("[]T") ==> err != nil
+//@   ensures elementwise: prelu_operands(result, input, slope) ==> err == nil &&
+//@          (forall j :: 0 <= j && j < len(unbox(input, "[]T")) ==>
+//@             unbox(result, "[]T")[j] == ite(ltzero(old(unbox(input, "[]T")[j])), gomul(old(unbox(slope, "[]T")[j]), old(unbox(input, "[]T")[j])), old(unbox(input, "[]T")[j])))
+//@   loop 1 invariant prelu_operands(result, input, slope) ==>
+//@          (forall j :: 0 <= j && j < $i ==>
+//@             unbox(result, "[]T")[j] == ite(ltzero(old(unbox(input, "[]T")[j])), gomul(old(unbox(slope, "[]T")[j]), old(unbox(input, "[]T")[j])), old(unbox(input, "[]T")[j])))
+
+//@ spec prelu_operands(result any, input any, slope any) bool = typeof(result) == tagof("[]T") && typeof(input) == tagof("[]T") && typeof(slope) == tagof("[]T") &&
+//@          len(unbox(input, "[]T")) <= len(unbox(result, "[]T")) && len(unbox(input, "[]T")) <= len(unbox(slope, "[]T")) &&
+//@          base(unbox(result, "[]T")) != base(unbox(input, "[]T")) && base(unbox(result, "[]T")) != base(unbox(slope, "[]T"))
 
 //@ func incrementSlices
 //@   tags C02
@@ -917,3 +928,207 @@ package opset13
 //@   loop 2 invariant forall k :: 0 <= k && k <= axis ==> dim(input, k) == adim(inputs[0], len(shape), k)
 //@   loop 2 exit assert every_axis_was_compatible: forall k :: 0 <= k && k < expand_n(inputs[0], inputs[1]) ==>
 //@          adim(inputs[0], expand_n(inputs[0], inputs[1]), k) == tdim(inputs[1], expand_n(inputs[0], inputs[1]), k) || adim(inputs[0], expand_n(inputs[0], inputs[1]), k) == 1 || tdim(inputs[1], expand_n(inputs[0], inputs[1]), k) == 1
+
+// ---------------------------------------------------------------------------------------
+// C10: unary math and activation operators. gen32 / gen64 / genb denote the value of a tensor at
+// one fixed but arbitrary element position ("generic element"); the input's generic element is
+// unconstrained, so a clause relating gen*(result) to gen*(input) holds for every element.
+// math_<F> is Go's math.<F> (float64), math32_<F> gorgonia's float32 kernel function: both
+// uninterpreted (their accuracy and IEEE special cases are those of the libraries).
+
+//@ func (*Sin).Apply
+//@   tags C10,C02
+//@   requires self != nil && len(inputs) == 1 && inputs[0] != nil
+//@   modifies opstate(self)
+//@   ensures float32_elementwise: dtype(inputs[0]) == Float32 ==> err == nil && len(result) == 1 && result[0] != nil && fresh(result[0]) &&
+//@          same_shape(result[0], inputs[0]) && dtype(result[0]) == Float32 && gen32(result[0]) == f32(math_Sin(f64(gen32(inputs[0]))))
+//@   ensures float64_elementwise: dtype(inputs[0]) == Float64 ==> err == nil && len(result) == 1 && result[0] != nil && fresh(result[0]) &&
+//@          same_shape(result[0], inputs[0]) && dtype(result[0]) == Float64 && gen64(result[0]) == math_Sin(gen64(inputs[0]))
+//@   ensures other_types_refused: dtype(inputs[0]) != Float32 && dtype(inputs[0]) != Float64 ==> err != nil
+
+//@ func (*Cos).Apply
+//@   tags C10,C02
+//@   requires self != nil && len(inputs) == 1 && inputs[0] != nil
+//@   modifies opstate(self)
+//@   ensures float32_elementwise: dtype(inputs[0]) == Float32 ==> err == nil && len(result) == 1 && result[0] != nil && fresh(result[0]) &&
+//@          same_shape(result[0], inputs[0]) && dtype(result[0]) == Float32 && gen32(result[0]) == f32(math_Cos(f64(gen32(inputs[0]))))
+//@   ensures float64_elementwise: dtype(inputs[0]) == Float64 ==> err == nil && len(result) == 1 && result[0] != nil && fresh(result[0]) &&
+//@          same_shape(result[0], inputs[0]) && dtype(result[0]) == Float64 && gen64(result[0]) == math_Cos(gen64(inputs[0]))
+//@   ensures other_types_refused: dtype(inputs[0]) != Float32 && dtype(inputs[0]) != Float64 ==> err != nil
+
+//@ func (*Tan).Apply
+//@   tags C10,C02
+//@   requires self != nil && len(inputs) == 1 && inputs[0] != nil
+//@   modifies opstate(self)
+//@   ensures float32_elementwise: dtype(inputs[0]) == Float32 ==> err == nil && len(result) == 1 && result[0] != nil && fresh(result[0]) &&
+//@          same_shape(result[0], inputs[0]) && dtype(result[0]) == Float32 && gen32(result[0]) == f32(math_Tan(f64(gen32(inputs[0]))))
+//@   ensures float64_elementwise: dtype(inputs[0]) == Float64 ==> err == nil && len(result) == 1 && result[0] != nil && fresh(result[0]) &&
+//@          same_shape(result[0], inputs[0]) && dtype(result[0]) == Float64 && gen64(result[0]) == math_Tan(gen64(inputs[0]))
+//@   ensures other_types_refused: dtype(inputs[0]) != Float32 && dtype(inputs[0]) != Float64 ==> err != nil
+
+//@ func (*Asin).Apply
+//@   tags C10,C02
+//@   requires self != nil && len(inputs) == 1 && inputs[0] != nil
+//@   modifies opstate(self)
+//@   ensures float32_elementwise: dtype(inputs[0]) == Float32 ==> err == nil && len(result) == 1 && result[0] != nil && fresh(result[0]) &&
+//@          same_shape(result[0], inputs[0]) && dtype(result[0]) == Float32 && gen32(result[0]) == f32(math_Asin(f64(gen32(inputs[0]))))
+//@   ensures float64_elementwise: dtype(inputs[0]) == Float64 ==> err == nil && len(result) == 1 && result[0] != nil && fresh(result[0]) &&
+//@          same_shape(result[0], inputs[0]) && dtype(result[0]) == Float64 && gen64(result[0]) == math_Asin(gen64(inputs[0]))
+//@   ensures other_types_refused: dtype(inputs[0]) != Float32 && dtype(inputs[0]) != Float64 ==> err != nil
+
+//@ func (*Acos).Apply
+//@   tags C10,C02
+//@   requires self != nil && len(inputs) == 1 && inputs[0] != nil
+//@   modifies opstate(self)
+//@   ensures float32_elementwise: dtype(inputs[0]) == Float32 ==> err == nil && len(result) == 1 && result[0] != nil && fresh(result[0]) &&
+//@          same_shape(result[0], inputs[0]) && dtype(result[0]) == Float32 && gen32(result[0]) == f32(math_Acos(f64(gen32(inputs[0]))))
+//@   ensures float64_elementwise: dtype(inputs[0]) == Float64 ==> err == nil && len(result) == 1 && result[0] != nil && fresh(result[0]) &&
+//@          same_shape(result[0], inputs[0]) && dtype(result[0]) == Float64 && gen64(result[0]) == math_Acos(gen64(inputs[0]))
+//@   ensures other_types_refused: dtype(inputs[0]) != Float32 && dtype(inputs[0]) != Float64 ==> err != nil
+
+//@ func (*Atan).Apply
+//@   tags C10,C02
+//@   requires self != nil && len(inputs) == 1 && inputs[0] != nil
+//@   modifies opstate(self)
+//@   ensures float32_elementwise: dtype(inputs[0]) == Float32 ==> err == nil && len(result) == 1 && result[0] != nil && fresh(result[0]) &&
+//@          same_shape(result[0], inputs[0]) && dtype(result[0]) == Float32 && gen32(result[0]) == f32(math_Atan(f64(gen32(inputs[0]))))
+//@   ensures float64_elementwise: dtype(inputs[0]) == Float64 ==> err == nil && len(result) == 1 && result[0] != nil && fresh(result[0]) &&
+//@          same_shape(result[0], inputs[0]) && dtype(result[0]) == Float64 && gen64(result[0]) == math_Atan(gen64(inputs[0]))
+//@   ensures other_types_refused: dtype(inputs[0]) != Float32 && dtype(inputs[0]) != Float64 ==> err != nil
+
+//@ func (*Sinh).Apply
+//@   tags C10,C02
+//@   requires self != nil && len(inputs) == 1 && inputs[0] != nil
+//@   modifies opstate(self)
+//@   ensures float32_elementwise: dtype(inputs[0]) == Float32 ==> err == nil && len(result) == 1 && result[0] != nil && fresh(result[0]) &&
+//@          same_shape(result[0], inputs[0]) && dtype(result[0]) == Float32 && gen32(result[0]) == f32(math_Sinh(f64(gen32(inputs[0]))))
+//@   ensures float64_elementwise: dtype(inputs[0]) == Float64 ==> err == nil && len(result) == 1 && result[0] != nil && fresh(result[0]) &&
+//@          same_shape(result[0], inputs[0]) && dtype(result[0]) == Float64 && gen64(result[0]) == math_Sinh(gen64(inputs[0]))
+//@   ensures other_types_refused: dtype(inputs[0]) != Float32 && dtype(inputs[0]) != Float64 ==> err != nil
+
+//@ func (*Cosh).Apply
+//@   tags C10,C02
+//@   requires self != nil && len(inputs) == 1 && inputs[0] != nil
+//@   modifies opstate(self)
+//@   ensures float32_elementwise: dtype(inputs[0]) == Float32 ==> err == nil && len(result) == 1 && result[0] != nil && fresh(result[0]) &&
+//@          same_shape(result[0], inputs[0]) && dtype(result[0]) == Float32 && gen32(result[0]) == f32(math_Cosh(f64(gen32(inputs[0]))))
+//@   ensures float64_elementwise: dtype(inputs[0]) == Float64 ==> err == nil && len(result) == 1 && result[0] != nil && fresh(result[0]) &&
+//@          same_shape(result[0], inputs[0]) && dtype(result[0]) == Float64 && gen64(result[0]) == math_Cosh(gen64(inputs[0]))
+//@   ensures other_types_refused: dtype(inputs[0]) != Float32 && dtype(inputs[0]) != Float64 ==> err != nil
+
+//@ func (*Asinh).Apply
+//@   tags C10,C02
+//@   requires self != nil && len(inputs) == 1 && inputs[0] != nil
+//@   modifies opstate(self)
+//@   ensures float32_elementwise: dtype(inputs[0]) == Float32 ==> err == nil && len(result) == 1 && result[0] != nil && fresh(result[0]) &&
+//@          same_shape(result[0], inputs[0]) && dtype(result[0]) == Float32 && gen32(result[0]) == f32(math_Asinh(f64(gen32(inputs[0]))))
+//@   ensures float64_elementwise: dtype(inputs[0]) == Float64 ==> err == nil && len(result) == 1 && result[0] != nil && fresh(result[0]) &&
+//@          same_shape(result[0], inputs[0]) && dtype(result[0]) == Float64 && gen64(result[0]) == math_Asinh(gen64(inputs[0]))
+//@   ensures other_types_refused: dtype(inputs[0]) != Float32 && dtype(inputs[0]) != Float64 ==> err != nil
+
+//@ func (*Acosh).Apply
+//@   tags C10,C02
+//@   requires self != nil && len(inputs) == 1 && inputs[0] != nil
+//@   modifies opstate(self)
+//@   ensures float32_elementwise: dtype(inputs[0]) == Float32 ==> err == nil && len(result) == 1 && result[0] != nil && fresh(result[0]) &&
+//@          same_shape(result[0], inputs[0]) && dtype(result[0]) == Float32 && gen32(result[0]) == f32(math_Acosh(f64(gen32(inputs[0]))))
+//@   ensures float64_elementwise: dtype(inputs[0]) == Float64 ==> err == nil && len(result) == 1 && result[0] != nil && fresh(result[0]) &&
+//@          same_shape(result[0], inputs[0]) && dtype(result[0]) == Float64 && gen64(result[0]) == math_Acosh(gen64(inputs[0]))
+//@   ensures other_types_refused: dtype(inputs[0]) != Float32 && dtype(inputs[0]) != Float64 ==> err != nil
+
+//@ func (*Atanh).Apply
+//@   tags C10,C02
+//@   requires self != nil && len(inputs) == 1 && inputs[0] != nil
+//@   modifies opstate(self)
+//@   ensures float32_elementwise: dtype(inputs[0]) == Float32 ==> err == nil && len(result) == 1 && result[0] != nil && fresh(result[0]) &&
+//@          same_shape(result[0], inputs[0]) && dtype(result[0]) == Float32 && gen32(result[0]) == f32(math_Atanh(f64(gen32(inputs[0]))))
+//@   ensures float64_elementwise: dtype(inputs[0]) == Float64 ==> err == nil && len(result) == 1 && result[0] != nil && fresh(result[0]) &&
+//@          same_shape(result[0], inputs[0]) && dtype(result[0]) == Float64 && gen64(result[0]) == math_Atanh(gen64(inputs[0]))
+//@   ensures other_types_refused: dtype(inputs[0]) != Float32 && dtype(inputs[0]) != Float64 ==> err != nil
+
+//@ func (*Not).Apply
+//@   tags C10,C02
+//@   requires self != nil && len(inputs) == 1 && inputs[0] != nil
+//@   modifies opstate(self)
+//@   ensures bool_elementwise: dtype(inputs[0]) == Bool ==> err == nil && len(result) == 1 && result[0] != nil && fresh(result[0]) &&
+//@          same_shape(result[0], inputs[0]) && dtype(result[0]) == Bool && (genb(result[0]) <==> !genb(inputs[0]))
+//@   ensures other_types_refused: dtype(inputs[0]) != Bool ==> err != nil
+
+//@ func (*Abs).Apply
+//@   tags C10,C02
+//@   requires self != nil && len(inputs) == 1 && inputs[0] != nil
+//@   modifies opstate(self)
+//@   ensures float32_elementwise: dtype(inputs[0]) == Float32 ==> err == nil && len(result) == 1 && result[0] != nil && fresh(result[0]) &&
+//@          same_shape(result[0], inputs[0]) && dtype(result[0]) == Float32 && gen32(result[0]) == fabs32(gen32(inputs[0]))
+//@   ensures float64_elementwise: dtype(inputs[0]) == Float64 ==> err == nil && len(result) == 1 && result[0] != nil && fresh(result[0]) &&
+//@          same_shape(result[0], inputs[0]) && dtype(result[0]) == Float64 && gen64(result[0]) == fabs64(gen64(inputs[0]))
+//@   ensures signed_integers_computed: signed_int(dtype(inputs[0])) ==> err == nil && len(result) == 1 && result[0] != nil && fresh(result[0]) &&
+//@          same_shape(result[0], inputs[0]) && dtype(result[0]) == dtype(inputs[0])
+//@   ensures unsigned_integers_computed: unsigned_int(dtype(inputs[0])) ==> err == nil && len(result) == 1 && result[0] != nil && fresh(result[0]) && contents(result[0]) == contents(inputs[0]) &&
+//@          same_shape(result[0], inputs[0]) && dtype(result[0]) == dtype(inputs[0])
+
+//@ func (*Tanh).Apply
+//@   tags C10,C02
+//@   requires self != nil && len(inputs) == 1 && inputs[0] != nil
+//@   modifies opstate(self)
+//@   ensures float32_elementwise: dtype(inputs[0]) == Float32 ==> err == nil && len(result) == 1 && result[0] != nil && fresh(result[0]) &&
+//@          same_shape(result[0], inputs[0]) && dtype(result[0]) == Float32 && gen32(result[0]) == math32_Tanh(gen32(inputs[0]))
+//@   ensures float64_elementwise: dtype(inputs[0]) == Float64 ==> err == nil && len(result) == 1 && result[0] != nil && fresh(result[0]) &&
+//@          same_shape(result[0], inputs[0]) && dtype(result[0]) == Float64 && gen64(result[0]) == math_Tanh(gen64(inputs[0]))
+
+//@ func (*Sigmoid).Apply
+//@   tags C10,C02
+//@   requires self != nil && len(inputs) == 1 && inputs[0] != nil
+//@   modifies opstate(self)
+//@   ensures float32_elementwise: dtype(inputs[0]) == Float32 ==> err == nil && len(result) == 1 && result[0] != nil && fresh(result[0]) &&
+//@          same_shape(result[0], inputs[0]) && dtype(result[0]) == Float32 &&
+//@          gen32(result[0]) == fone32() / (fone32() + math32_Exp(fneg32(gen32(inputs[0]))))
+//@   ensures float64_elementwise: dtype(inputs[0]) == Float64 ==> err == nil && len(result) == 1 && result[0] != nil && fresh(result[0]) &&
+//@          same_shape(result[0], inputs[0]) && dtype(result[0]) == Float64 &&
+//@          gen64(result[0]) == fone64() / (fone64() + math_Exp(fneg64(gen64(inputs[0]))))
+
+//@ func (*Relu).Apply
+//@   tags C10,C02
+//@   requires self != nil && len(inputs) == 1 && inputs[0] != nil
+//@   modifies opstate(self)
+//@   ensures float32_shape_and_type: dtype(inputs[0]) == Float32 ==> err == nil && len(result) == 1 && result[0] != nil && fresh(result[0]) &&
+//@          same_shape(result[0], inputs[0]) && dtype(result[0]) == Float32
+//@   ensures float32_elementwise: dtype(inputs[0]) == Float32 && err == nil ==> relu_is32(gen32(inputs[0]), gen32(result[0]))
+//@   ensures float64_shape_and_type: dtype(inputs[0]) == Float64 ==> err == nil && len(result) == 1 && result[0] != nil && fresh(result[0]) &&
+//@          same_shape(result[0], inputs[0]) && dtype(result[0]) == Float64
+//@   ensures float64_elementwise: dtype(inputs[0]) == Float64 && err == nil ==> relu_is64(gen64(inputs[0]), gen64(result[0]))
+
+//@ func (*PRelu).Apply
+//@   tags C10,C02
+//@   requires self != nil && len(inputs) == 2 && inputs[0] != nil && inputs[1] != nil
+//@   scope extents_positive: dims_positive(inputs[0]) && dims_positive(inputs[1]) && blen(inputs[0]) == nelems(shapeof(inputs[0])) && blen(inputs[1]) == nelems(shapeof(inputs[1]))
+//@   scope slope_has_the_input_type: dtype(inputs[1]) == dtype(inputs[0])
+//@   modifies opstate(self)
+//@   ensures slope_not_broadcastable_refused: !ubroadcastable(inputs[0], inputs[1]) ==> err != nil
+//@   ensures other_types_refused: !prelu_type(dtype(inputs[0])) ==> err != nil
+//@   ensures rank0_computed: ubroadcastable(inputs[0], inputs[1]) && prelu_type(dtype(inputs[0])) && rank(inputs[0]) == 0 ==> err == nil
+//@   ensures shape_and_type: err == nil ==> len(result) == 1 && result[0] != nil && fresh(result[0]) && same_shape(result[0], inputs[0]) && dtype(result[0]) == dtype(inputs[0])
+//@   before calcPRelu[float32] assert float32_operands_are_the_element_stores: rank(x) >= 1 ==> typeof($arg0) == tagof("[]float32") && typeof($arg1) == tagof("[]float32") && typeof($arg2) == tagof("[]float32") &&
+//@          sameslice(unbox($arg0, "[]float32"), tdata(y, "float32")) && sameslice(unbox($arg1, "[]float32"), tdata(x, "float32")) && sameslice(unbox($arg2, "[]float32"), tdata(slope, "float32")) &&
+//@          fresh(y) && same_shape(y, inputs[0]) && dtype(y) == Float32 && x == inputs[0] && same_shape(slope, inputs[0])
+//@   before calcPRelu[float64] assert float64_operands_are_the_element_stores: rank(x) >= 1 ==> typeof($arg0) == tagof("[]float64") && typeof($arg1) == tagof("[]float64") && typeof($arg2) == tagof("[]float64") &&
+//@          sameslice(unbox($arg0, "[]float64"), tdata(y, "float64")) && sameslice(unbox($arg1, "[]float64"), tdata(x, "float64")) && sameslice(unbox($arg2, "[]float64"), tdata(slope, "float64")) &&
+//@          fresh(y) && same_shape(y, inputs[0]) && dtype(y) == Float64 && x == inputs[0] && same_shape(slope, inputs[0])
+//@   before calcPRelu[uint32] assert uint32_operands_are_the_element_stores: rank(x) >= 1 ==> typeof($arg0) == tagof("[]uint32") && typeof($arg1) == tagof("[]uint32") && typeof($arg2) == tagof("[]uint32") &&
+//@          sameslice(unbox($arg0, "[]uint32"), tdata(y, "uint32")) && sameslice(unbox($arg1, "[]uint32"), tdata(x, "uint32")) && sameslice(unbox($arg2, "[]uint32"), tdata(slope, "uint32")) &&
+//@          fresh(y) && same_shape(y, inputs[0]) && dtype(y) == Uint32 && x == inputs[0] && same_shape(slope, inputs[0])
+//@   before calcPRelu[uint64] assert uint64_operands_are_the_element_stores: rank(x) >= 1 ==> typeof($arg0) == tagof("[]uint64") && typeof($arg1) == tagof("[]uint64") && typeof($arg2) == tagof("[]uint64") &&
+//@          sameslice(unbox($arg0, "[]uint64"), tdata(y, "uint64")) && sameslice(unbox($arg1, "[]uint64"), tdata(x, "uint64")) && sameslice(unbox($arg2, "[]uint64"), tdata(slope, "uint64")) &&
+//@          fresh(y) && same_shape(y, inputs[0]) && dtype(y) == Uint64 && x == inputs[0] && same_shape(slope, inputs[0])
+//@   before calcPRelu[int32] assert int32_operands_are_the_element_stores: rank(x) >= 1 ==> typeof($arg0) == tagof("[]int32") && typeof($arg1) == tagof("[]int32") && typeof($arg2) == tagof("[]int32") &&
+//@          sameslice(unbox($arg0, "[]int32"), tdata(y, "int32")) && sameslice(unbox($arg1, "[]int32"), tdata(x, "int32")) && sameslice(unbox($arg2, "[]int32"), tdata(slope, "int32")) &&
+//@          fresh(y) && same_shape(y, inputs[0]) && dtype(y) == Int32 && x == inputs[0] && same_shape(slope, inputs[0])
+//@   before calcPRelu[int64] assert int64_operands_are_the_element_stores: rank(x) >= 1 ==> typeof($arg0) == tagof("[]int64") && typeof($arg1) == tagof("[]int64") && typeof($arg2) == tagof("[]int64") &&
+//@          sameslice(unbox($arg0, "[]int64"), tdata(y, "int64")) && sameslice(unbox($arg1, "[]int64"), tdata(x, "int64")) && sameslice(unbox($arg2, "[]int64"), tdata(slope, "int64")) &&
+//@          fresh(y) && same_shape(y, inputs[0]) && dtype(y) == Int64 && x == inputs[0] && same_shape(slope, inputs[0])
+
+//@ spec prelu_type(d dtype) bool = d == Float32 || d == Float64 || d == Uint32 || d == Uint64 || d == Int32 || d == Int64
+//@ spec ubroadcastable(a tensor.Tensor, b tensor.Tensor) bool = rank(b) <= rank(a) && (forall k :: 0 <= k && k < rank(a) ==> adim(b, rank(a), k) == dim(a, k) || adim(b, rank(a), k) == 1)
+
+//@ spec signed_int(d dtype) bool = d == Int8 || d == Int16 || d == Int32 || d == Int64
+//@ spec unsigned_int(d dtype) bool = d == Uint8 || d == Uint16 || d == Uint32 || d == Uint64
